@@ -107,6 +107,15 @@ class HeapMixin:
             st.pc.append(Eq(self.type_of(st, v.t), self.container_tag(v)))
         elif isinstance(v, VOpt) and isinstance(v.inner, (VList, VDict, VDeque, VSet)):
             st.pc.append(Or(v.isnone, Eq(self.type_of(st, v.inner.t), self.container_tag(v.inner))))
+        if isinstance(v, VRef) and v.cls in self.reg.obj_invariants and not self.verifying.startswith(v.cls + "."):
+            from .speceval import SpecEnv
+            key = ("inv", v.t.s, id(st.heap.get(v.cls)))
+            if not getattr(self, "_in_inv", False):
+                self._in_inv = True
+                try:
+                    st.pc.append(self.spec_bool(SpecEnv(st, {"self": v}), self.reg.obj_invariants[v.cls]))
+                finally:
+                    self._in_inv = False
         if isinstance(v, (VRef, VList, VDict, VDeque, VSet)):
             st.pc.append(And(Lt(I(0), v.t), Lt(v.t, st.alloc)))
             if isinstance(v, VRef) and not self.reg.models.get(v.cls, None) is None and self.reg.models[v.cls].builtin:
